@@ -18,7 +18,7 @@
 const char* const H_NAME = "c01_mixed";
 const char* const H_PROPERTY = "C01";
 
-enum { M_YIELD = 0, M_MUTEX, M_COND, M_SEM, M_RW, M_BARRIER, M_CHAN, M_MULTI, M_SLEEP, M_DETACH, M_PIPE, M_CLOSESIG, M_STORM, M_MSIG, M_NKINDS };
+enum { M_YIELD = 0, M_MUTEX, M_COND, M_SEM, M_RW, M_BARRIER, M_CHAN, M_MULTI, M_SLEEP, M_DETACH, M_PIPE, M_CLOSESIG, M_STORM, M_MSIG, M_TRYJOIN, M_NKINDS };
 #define MAXMOD 5
 #define MAXF 96
 typedef struct mod {
@@ -192,6 +192,22 @@ static void* f_detached(void* p) {
   arg_t* a = p;
   for (int i = 0; i < a->m->a; i++) RS0(fiber_yield);
   a->m->flag = 1;
+  return NULL;
+}
+/* a fiber that finishes while another one polls fiber_tryjoin on it and yields straight after the success */
+static void* f_tj_target(void* p) {
+  arg_t* a = p;
+  for (int i = 0; i < a->m->a - 1; i++) RS0(fiber_yield);
+  return (void*)(intptr_t)(0x7100 + a->m->a);
+}
+static void* f_tj_poller(void* p) {
+  arg_t* a = p;
+  mod_t* m = a->m;
+  void* res = NULL;
+  while (fiber_tryjoin(m->waiter_fiber, &res) != FIBER_SUCCESS) RS0(fiber_yield);
+  chk(res == (void*)(intptr_t)(0x7100 + m->a), "C04-wrong-result", "mixed program: tryjoin delivered a wrong result");
+  if (m->c) RS0(fiber_yield);
+  op_done();
   return NULL;
 }
 static void* f_pipe(void* p) {
@@ -378,7 +394,7 @@ void h_run(void) {
   nmod = wl_int(1, sim_tier_thorough() ? MAXMOD : 4);
   char d[400];
   int dk = 0;
-  static const char* const kn[] = {"yield", "mutex", "cond", "sem", "rwlock", "barrier", "chan", "multi", "sleep", "detach", "pipe", "close-then-signal", "storm", "multi-signal"};
+  static const char* const kn[] = {"yield", "mutex", "cond", "sem", "rwlock", "barrier", "chan", "multi", "sleep", "detach", "pipe", "close-then-signal", "storm", "multi-signal", "tryjoin-poll"};
   for (int i = 0; i < nmod; i++) {
     M[i].kind = wl_pct(25) ? M_STORM : wl_pick(M_NKINDS);
     M[i].a = wl_int(1, 4);
@@ -455,6 +471,13 @@ void h_run(void) {
         detached[ndet++] = f;
         break;
       }
+      case M_TRYJOIN:
+        spawn(f_tj_target, m, 0);
+        m->waiter_fiber = fibers[nf - 1];
+        fibers[nf - 1] = NULL; /* joined by the poller */
+        if (m->b) fiber_yield();
+        spawn(f_tj_poller, m, 1);
+        break;
       case M_PIPE:
         if (pipe(m->pfd) != 0) sim_violation("SIM-pipe", "pipe() failed");
         spawn(f_pipe, m, 0);
